@@ -275,7 +275,7 @@ pub fn subchecks(tier: Tier) -> Vec<SubCheck> {
         generated(
             "routes_and_roundtrip",
             "raw hashes of both capacities (run layouts, back-to-back runs of 4..8 filling the RLE table, runs ending at the capacity) x 6 construction routes incl. a used destination: valid, decompress to exactly the raw hash and its text, expose its normalisation, pairwise ==, equal Hash (two fixed hashers), cmp == Equal; different raw hashes give different duals; normalize_in_place = dual of the normalised hash; non-trivial = >= 1 RLE entry needed; distinct by text",
-            tier.pick(300_000, 4_000_000),
+            tier.pick(1_200_000, 12_000_000),
             strategy,
             eval,
         ),
